@@ -43,4 +43,48 @@ theorem two_centres_wrong :
     simp [vadd, vzero, toSI, seg2, si, pos2] at this
   · simp [vadd, vzero, toSI, seg2]
 
+/-! ## A frame made from a re-framed orbit (open finding C18-asframe-reframed)
+
+`orb = jpl.get_orbit(3)` (body 3 relative to 0), `orb.frame = <frame of 10>` in place (or `orb.copy(frame=…)`), then
+`orb.as_frame(7)`: `orbit2frame` hangs the new centre below the centre of the orbit's CURRENT frame (10) but its offset
+is `orb.propagate(date)`, which the propagator returns relative to ITS frame (0).  The hypothesis `AttOK` of
+`C18.spk_attached_frames` (`link = cen` in `C18.spk_as_frame`) cannot be dropped.  Replayed on the implementation by
+harness/props/C18.py (`oracle_histories`, family `spk-asframe-reframed-orbit`); proposed repair in
+proposed_fixes/C18-asframe-reframed.diff. -/
+
+def kern3 : Pairs := [(0, 3), (0, 10)]
+
+/-- both bodies sit 1 km along x from body 0 -/
+noncomputable def seg3 (_ _ : Nat) : V6 := fun i => if i.val = 0 then 1 else 0
+
+noncomputable def pos3 : Nat → V6 := fun b => if b = 0 then 0 else (fun i => if i.val = 0 then 1 else 0)
+
+def attReframed : List Att := [⟨7, 10, 3, 0⟩]
+
+theorem asframe_reframed_consistent : Consistent kern3 seg3 pos3 := by
+  intro c t h
+  simp only [kern3, List.mem_cons, Prod.mk.injEq, List.not_mem_nil, or_false] at h
+  rcases h with ⟨rfl, rfl⟩ | ⟨rfl, rfl⟩ <;> (funext i; simp [seg3, pos3])
+
+/-- the new frame should be centred on body 3, which coincides with body 10: the offset is zero; the code's answer is
+1 km along x -/
+theorem asframe_reframed_wrong :
+    ∃ v, reframeA 8 kern3 attReframed seg3 7 10 vzero = .ok v ∧ v ≠ si (pos3 3 - pos3 10) ∧ v ⟨0, by omega⟩ = 1000 := by
+  obtain ⟨g, hb, hp⟩ : ∃ g, build 8 (linkHistA kern3 attReframed) = some g ∧ path 8 g 7 10 = .ok [7, 10] :=
+    ⟨_, rfl, by decide⟩
+  have hc : centerToA 8 kern3 attReframed seg3 7 10 = sumStepsA kern3 attReframed seg3 vzero [7, 10] := by
+    unfold centerToA; rw [hb]; simp only; rw [hp]
+  have hs : sumStepsA kern3 attReframed seg3 vzero [7, 10] = .ok (vadd vzero (toSI 1 (seg3 0 3))) := by
+    simp [sumStepsA, stepOffsetA, attFind, attReframed, propagate, kern3]
+  refine ⟨vadd vzero (toSI 1 (seg3 0 3)), ?_, ?_, ?_⟩
+  · unfold reframeA
+    have h1 : hasFrameA kern3 attReframed 7 = true := by decide
+    have h2 : hasFrameA kern3 attReframed 10 = true := by decide
+    rw [h1, h2, hc, hs]
+    simp [vadd_eq, vzero_eq]
+  · intro h
+    have := congrFun h ⟨0, by omega⟩
+    simp [vadd, vzero, toSI, seg3, si, pos3] at this
+  · simp [vadd, vzero, toSI, seg3]
+
 end BeyondVerif.C18W
